@@ -12,6 +12,7 @@ func init() {
 		Rule: "one state = one feasible path of the real cmd/commands + helpers code over the stubbed environment (symbolic report bytes, symbolic prior content of the output file, symbolic library-failure flag); every path is distinct (different decision vector)",
 		Harnesses: func(tier string) []HarnessSpec {
 			return []HarnessSpec{
+				{Pkg: "internal/validator", Fn: "VerifC18LibrarySilent", Native: "VerifC18LibrarySilentNative", Reach: []string{"returned"}, Bounds: map[string]any{"profiles": "the usual one, one with level names that have no definition and a validation nobody lists, one without targetClass, one that is not YAML", "entry_points": "GenerateRego, Validate, ProcessProfile+ValidateCompiled, ProcessInput", "stage_faults": "every assignment"}},
 				{Pkg: "cmd/commands", Fn: "VerifC18Validate", CrossCheck: true, Native: "VerifC18ValidateNative", Reach: []string{"lib-failed", "printed", "readonly", "wrote-file"},
 					Bounds: map[string]any{"report_len": "1..3 symbolic bytes", "prior_len": "0..5 symbolic bytes", "prior_state": "absent|present|read-only"}},
 				{Pkg: "cmd/commands", Fn: "VerifC18Generate", Native: "VerifC18GenerateNative", Reach: []string{"lib-failed", "printed"}, Bounds: map[string]any{"code_len": "1..3 symbolic bytes"}},
